@@ -109,6 +109,48 @@ fn roundtrip(obs: &mut Vec<Obs>, entry: &str, text: &str, want: &Parsed, check_p
     } else { obs.push(Obs::ok("C19", &format!("accept-{}", entry))); }
 }
 
+// ------------------------------------------------------------ infix arithmetic: same VALUE as the function form
+/// `$X = 7, <goal>` solved on the engine: the value (and type) `$R` gets, or "fail" / "panic".
+fn value_of_r(goal: Goal) -> String {
+    let var = |n: &str| Unifiable::LogicVar { id: 0, name: n.to_string() };
+    let head = Unifiable::SComplex(vec![Unifiable::Atom("t_".into()), var("$R")]);
+    let bind_x = Goal::BuiltInGoal(BuiltInPredicate::new("unify".into(), Some(vec![var("$X"), Unifiable::SInteger(7)])));
+    let body = Goal::OperatorGoal(Operator::And(vec![bind_x, goal]));
+    let r = catch_unwind(AssertUnwindSafe(|| {
+        let mut kb = KnowledgeBase::new();
+        add_rules(&mut kb, vec![Rule { head, body }]);
+        start_query();
+        let q = make_query(vec![Unifiable::Atom("t_".into()), var("$Q")]);
+        let qr = std::rc::Rc::new(q.clone());
+        let sn = make_base_node(std::rc::Rc::clone(&qr), &kb);
+        match next_solution(sn) {
+            Some(ss) => match &q { Goal::ComplexGoal(Unifiable::SComplex(v)) => format!("{:?}", crate::term::resolve(&project(&v[1]), &ss)), _ => "?".into() },
+            None => "fail".into(),
+        }
+    }));
+    r.unwrap_or_else(|_| "panic".into())
+}
+/// Does the infix text parse (with this entry point) to a goal that gives `$R` the value the function form gives it?
+fn same_value_as_function_form(entry: &str, text: &str, ast: &Value) -> Option<bool> {
+    let parsed = catch_unwind(AssertUnwindSafe(|| match entry { "subgoal" => parse_subgoal(text).ok(), _ => generate_goal(text).ok() })).ok()??;
+    let reference = crate::solve::build_goal(ast);
+    let want = value_of_r(reference);
+    if want == "panic" { return None; }
+    Some(value_of_r(parsed) == want)
+}
+/// Alternative surface form of a goal: it must parse to the documented goal -- or, for `=` with infix
+/// arithmetic, at least to a goal with the same value (a parser that folds `7 + 0` keeps C12 and C19)
+fn alt_form(obs: &mut Vec<Obs>, entry: &str, text: &str, want: &Parsed, ast: &Value) {
+    let got = parse_with(entry, text);
+    if &got == want { obs.push(Obs::ok("C19", &format!("accept-{}", entry))); return; }
+    let arith = ast["g"] == "bip" && ast["f"] == "unify" && ast["a"].as_array().map_or(false, |a| a.iter().any(|t| t["k"] == "fn"));
+    if arith && matches!(got, Parsed::Goal(_)) {
+        if let Some(true) = same_value_as_function_form(entry, text, ast) { obs.push(Obs::ok("C19", &format!("accept-{}-same-value", entry))); return; }
+    }
+    obs.push(Obs::bad("C19", &format!("parse-{}", entry), format!("parse_{}({:?}) :: documented {} / parsed {}{}", entry, text, show_parsed(want), show_parsed(&got),
+        if arith { " (and the parsed goal does not give $R the value of the function form)" } else { "" })));
+}
+
 // ------------------------------------------------------------ C20 contexts
 fn sub_of(ctx: &str, p: &Parsed) -> Option<Tm> {
     let arg = |t: &Tm, i: usize| -> Option<Tm> { match t { Tm::Cx(_, a) | Tm::Fn(_, a) => a.get(i).cloned(), Tm::List(a, _) => a.get(i).cloned(), _ => None } };
@@ -126,6 +168,10 @@ fn sub_of(ctx: &str, p: &Parsed) -> Option<Tm> {
         ("complex-last-compact", Parsed::Term(t)) | ("complex-mid", Parsed::Term(t)) | ("complex-mid-compact", Parsed::Term(t))
         | ("list-last-compact", Parsed::Term(t)) | ("list-mid", Parsed::Term(t)) | ("list-before-tail", Parsed::Term(t))
         | ("function-arg", Parsed::Term(t)) | ("function-arg-compact", Parsed::Term(t)) => arg(t, 1),
+        ("after-float", Parsed::Term(t)) | ("after-dotted-atom", Parsed::Term(t)) | ("after-quoted", Parsed::Term(t))
+        | ("list-after-float", Parsed::Term(t)) => arg(t, 1),
+        ("before-float", Parsed::Term(t)) => arg(t, 0),
+        ("builtin-after-float", Parsed::Goal(g)) => garg(g, 1),
         ("builtin-last", Parsed::Goal(g)) | ("builtin-last-compact", Parsed::Goal(g))
         | ("query-last", Parsed::Goal(g)) | ("query-last-compact", Parsed::Goal(g)) => garg(g, 1),
         ("nested-arg", Parsed::Term(t)) => arg(t, 0).and_then(|x| arg(&x, 0)),
@@ -170,6 +216,7 @@ pub fn props_of(case: &Value) -> Vec<&'static str> {
         "syn-term" => vec!["C19", "C20", "C15", "C18"],
         "syn-raw" => vec!["C20", "C18"],
         "syn-goal" | "syn-rule" => vec!["C19", "C18", "C12", "C14"],
+        "syn-altgoal" => vec!["C12", "C18"],
         _ => vec!["C18"],
     }
 }
@@ -206,8 +253,8 @@ pub fn replay(case: &Value) -> Vec<Obs> {
             let alt = case["alt"].as_str().unwrap_or("");
             if !alt.is_empty() {
                 let before = obs.len();
-                roundtrip(&mut obs, "goal", alt, &want, false);
-                roundtrip(&mut obs, "subgoal", alt, &want, false);
+                alt_form(&mut obs, "goal", alt, &want, &case["ast"]);
+                alt_form(&mut obs, "subgoal", alt, &want, &case["ast"]);
                 // the infix forms belong to C14 (comparison) and C12 (arithmetic) as well
                 let f = case["ast"]["f"].as_str().unwrap_or("");
                 let owner: Option<&'static str> = if f == "unify" { Some("C12") } else if k == "bip" { Some("C14") } else { None };
@@ -216,6 +263,16 @@ pub fn replay(case: &Value) -> Vec<Obs> {
                     if bad.is_empty() { obs.push(Obs::ok(owner, "infix-form")); } else { obs.push(Obs::bad(owner, "infix-form", bad.join(" | "))); }
                 }
             }
+        }
+        "syn-altgoal" => {
+            // infix text only: must parse to the function term with exactly these operands (C12)
+            let want = Parsed::Goal(norm_goal(&case["ast"]));
+            let mut tmp = vec![];
+            alt_form(&mut tmp, "goal", text, &want, &case["ast"]);
+            alt_form(&mut tmp, "subgoal", text, &want, &case["ast"]);
+            let bad: Vec<String> = tmp.iter().filter(|o| !o.ok).map(|o| o.detail.clone()).collect();
+            if bad.is_empty() { obs.push(Obs::ok("C12", "infix-form")); } else { obs.push(Obs::bad("C12", "infix-form", bad.join(" | "))); }
+            let mut n = 0; let mut b2 = vec![]; try_all(text, &mut n, &mut b2); finish_c18(&mut obs, n, b2);
         }
         "syn-rule" => {
             let want = Parsed::Rule(tm_to_json(&tm_from_json(&case["ast"]["head"])), norm_goal(&case["ast"]["body"]));
